@@ -268,9 +268,11 @@ def val (view : R → Bits × List R) (ord : R → Bool) : Nat → SOp R (Val R)
         (do let _ ← loadBytes 1; let r ← cellSlice view; return Val.slice r.1 r.2) s
       else if tag.take 1 == [6] then
         -- `return VmCont.deserialize(cell_slice)`: when no constructor tag matches this is `None`
+        -- (that call spends its unit of fuel like every other nested call)
         (do let _ ← loadBytes 1
             let known ← (fun s' => (s', some (contTagKnown s')))
-            if known then do let k ← cont view ord fuel; return Val.cont k else return Val.null) s
+            if known then do let k ← cont view ord fuel; return Val.cont k
+            else (if fuel = 0 then SOp.fail else return Val.null)) s
       else if tag.take 1 == [7] then
         (do let _ ← loadBytes 1
             let len ← loadUint 16
